@@ -166,13 +166,20 @@ pub struct ChanExec<M: RawMutex + 'static, A: RingBuf<Item = Val> + 'static> {
     sf: Slots<ChannelSendFuture<'static, M, Val>>,
     rf: Slots<ChannelReceiveFuture<'static, M, Val>>,
     streams: Slots<ChannelStream<'static, M, Val, A>>,
+    view: bool,
 }
 
 impl<M: RawMutex + 'static, A: RingBuf<Item = Val> + 'static> ChanExec<M, A> {
     pub fn new(cfg: &[u64]) -> Self {
         let ch = Box::leak(Box::new(GenericChannel::<M, Val, A>::with_capacity(cfg[2] as usize)));
         let ns = cfg.get(5).copied().unwrap_or(0) as usize;
-        ChanExec { ch: Some(ch), sf: Slots::new(cfg[1] as usize), rf: Slots::new(cfg[0] as usize), streams: Slots::new(ns) }
+        ChanExec { ch: Some(ch), sf: Slots::new(cfg[1] as usize), rf: Slots::new(cfg[0] as usize), streams: Slots::new(ns), view: false }
+    }
+    /// array-backed buffers: `new()` (the capacity is the array length)
+    pub fn new_default(cfg: &[u64]) -> Self {
+        let ch = Box::leak(Box::new(GenericChannel::<M, Val, A>::new()));
+        let ns = cfg.get(5).copied().unwrap_or(0) as usize;
+        ChanExec { ch: Some(ch), sf: Slots::new(cfg[1] as usize), rf: Slots::new(cfg[0] as usize), streams: Slots::new(ns), view: false }
     }
     chan_common!();
 
@@ -191,7 +198,9 @@ impl<M: RawMutex + 'static, A: RingBuf<Item = Val> + 'static> ChanExec<M, A> {
         self.rf.drop_all();
         self.streams.drop_all();
         if let Some(ch) = self.ch.take() {
-            lib(|| unsafe { drop(Box::from_raw(ch as *const _ as *mut GenericChannel<M, Val, A>)) });
+            if !self.view {
+                lib(|| unsafe { drop(Box::from_raw(ch as *const _ as *mut GenericChannel<M, Val, A>)) });
+            }
         }
     }
 }
@@ -250,6 +259,11 @@ impl<M: RawMutex + 'static, A: RingBuf<Item = Val> + 'static> Exec for ChanExec<
         self.observe(&mut o);
         o
     }
+    fn share(&self) -> Option<Box<dyn Exec>> {
+        self.ch.map(|ch| -> Box<dyn Exec> {
+            Box::new(ChanExec::<M, A> { ch: Some(ch), sf: Slots::new(self.sf.len()), rf: Slots::new(self.rf.len()), streams: Slots::new(self.streams.len()), view: true })
+        })
+    }
 }
 
 impl<M: RawMutex + 'static, A: RingBuf<Item = Val> + 'static> Drop for ChanExec<M, A> {
@@ -272,7 +286,14 @@ pub struct SharedChanExec<M: RawMutex + 'static, A: RingBuf<Item = Val> + 'stati
 
 impl<M: RawMutex + 'static, A: RingBuf<Item = Val> + 'static> SharedChanExec<M, A> {
     pub fn new(cfg: &[u64]) -> Self {
-        let (s, r) = generic_channel::<M, Val, A>(cfg[2] as usize);
+        // the parking_lot + growing-buffer flavour goes through the crate's convenience
+        // constructors `channel(capacity)` / `unbuffered_channel()`
+        let cap = cfg[2] as usize;
+        let conv = if cap == 0 { cast(shared::unbuffered_channel::<Val>()) } else { cast(shared::channel::<Val>(cap)) };
+        let (s, r): (GenericSender<M, Val, A>, GenericReceiver<M, Val, A>) = match conv {
+            Ok(p) => p,
+            Err(p) => { drop(p); generic_channel::<M, Val, A>(cap) }
+        };
         let observer = Some(s.verif_observer());
         let mut senders = Vec::with_capacity(16);
         let mut receivers = Vec::with_capacity(16);
@@ -427,10 +448,10 @@ pub type Growing = GrowingHeapBuf<Val>;
 
 pub fn make_array<M: RawMutex + 'static>(cfg: &[u64]) -> Option<Box<dyn Exec>> {
     Some(match cfg[2] {
-        0 => Box::new(ChanExec::<M, Arr0>::new(cfg)),
-        1 => Box::new(ChanExec::<M, Arr1>::new(cfg)),
-        2 => Box::new(ChanExec::<M, Arr2>::new(cfg)),
-        3 => Box::new(ChanExec::<M, Arr3>::new(cfg)),
+        0 => Box::new(ChanExec::<M, Arr0>::new_default(cfg)),
+        1 => Box::new(ChanExec::<M, Arr1>::new_default(cfg)),
+        2 => Box::new(ChanExec::<M, Arr2>::new_default(cfg)),
+        3 => Box::new(ChanExec::<M, Arr3>::new_default(cfg)),
         _ => return None,
     })
 }
